@@ -142,7 +142,7 @@ class Recorder:
 
     # -- events ------------------------------------------------------
     def emit(self, a, **kw):
-        ev = {"a": a, "name": kw.pop("name", ""), "res": False, "verdict": "none", "subs": [], "where": "", "exc": ""}
+        ev = {"a": a, "name": kw.pop("name", ""), "res": False, "verdict": "none", "subs": [], "where": "", "exc": "", "nmoved": -1, "noveto": False}
         ev.update(kw)
         cands = [s["refreshed_raw"] for s in _Rec.log if s.get("refreshed_raw") is not None]
         ev["s"] = self.P.state(extra_mom_candidates=cands)
@@ -188,9 +188,16 @@ class Recorder:
                 out.append({"k": kind, "dir": "ins" if kind == "exch" else "", "lab": NOLAB, "ok": ok, "refreshed": []})
         return out
 
+    def moved_info(self, name):
+        """what a composite displacement move reports, and whether the user's check vetoed anything in this call"""
+        mv = self.mc.moves[name].move
+        nm = int(mv.number_of_moved_particles) if hasattr(mv, "number_of_moved_particles") else -1
+        noveto = not getattr(self, "veto_active", lambda: True)()
+        return {"nmoved": nm, "noveto": bool(noveto)}
+
     def on_call_returned(self, name, res):
         self.called = True
-        self.emit("call", name=name, res=bool(res), subs=self.subs_for(name))
+        self.emit("call", name=name, res=bool(res), subs=self.subs_for(name), **self.moved_info(name))
 
     def on_evaluated(self, name, v):
         self.emit("eval", name=name, verdict="acc" if v else "rej")
@@ -207,7 +214,7 @@ class Recorder:
         v = hist[1]
         if not self.called:
             # falsy move: no evaluate happened
-            self.emit("call", name=name, res=False, subs=self.subs_for(name))
+            self.emit("call", name=name, res=False, subs=self.subs_for(name), **self.moved_info(name))
         self.emit("end", name=name, verdict="none" if v is None else ("acc" if v else "rej"))
         self.pending_name = None
 
